@@ -54,7 +54,7 @@ def replay_history(path, clauses, prop):
         body = json.load(f)
     scn = body["scenario"]
     RC.warm()
-    h = C.fork_map(S.run_history, [scn], timeout=300)[0]
+    h = C.fork_map(S.run_history, [scn], timeout=1200)[0]
     if h is None or "_error" in h:
         print("MACHINERY-ERROR: %s" % str(h)[:800])
         return 2
@@ -74,3 +74,40 @@ def replay_history(path, clauses, prop):
         return 1
     print("replay does not violate the property on the current tree")
     return 0
+
+
+def selftest(prop):
+    """Binding demonstration for the store family: corrupt recorded observations and require TLC to reject them."""
+    import copy
+    from .. import storegen as G
+    rng = random.Random(5)
+    RC.warm()
+    scn = {"project": G.base_project(rng), "steps": [G.run_step(rng, 100, again=False, p_fail=0.0),
+                                                      G.run_step(rng, 150, target="//:a", again=True, p_fail=0.0),
+                                                      {"cmd": "gc", "argv": ["gc"]}], "tag": "selftest"}
+    h = C.fork_map(S.run_history, [scn], timeout=1200)[0]
+    t = S.to_store_trace(0, scn, h)
+    muts = []
+    m = copy.deepcopy(t)
+    m["steps"][1]["after"]["vdirs"] = m["steps"][1]["after"]["vdirs"][1:]
+    muts.append(("drop-a-recorded-directory", m, {"IndexImpliesData", "RecordedImmutable"}))
+    m = copy.deepcopy(t)
+    m["steps"][1]["after"]["vdirs"][0][2] += 1000
+    muts.append(("change-a-recorded-tree", m, {"RecordedImmutable"}))
+    m = copy.deepcopy(t)
+    m["steps"][1]["spawns"][0][1] = 1
+    muts.append(("old-version-id", m, {"IdAboveRecorded", "RowsOnlyForExit0", "SuccessRecorded"}))
+    m = copy.deepcopy(t)
+    m["steps"][2]["after"]["rows"] = m["steps"][2]["after"]["rows"][1:]
+    muts.append(("gc-drops-a-row", m, {"GcKeepsIndex"}))
+    batch = [t] + [dict(x[1], id=i + 1) for i, x in enumerate(muts)]
+    v, _ = S.judge(batch)
+    ok = not v[0]
+    if v[0]:
+        print("selftest: the unmodified history is rejected: %s" % v[0])
+    for i, (name, _m, expect) in enumerate(muts):
+        got = {c for _s, c in v[i + 1]}
+        print("selftest %-28s rejected=%s clauses=%s" % (name, bool(got), sorted(got)))
+        ok = ok and bool(got & expect)
+    print("selftest %s: %s" % (prop, "binding demonstrated" if ok else "FAILED"))
+    return 0 if ok else 2
